@@ -265,7 +265,16 @@ Fixpoint join_with (sep : str) (l : list str) : str :=
   | x :: r => match r with [] => x | _ :: _ => x ++ sep ++ join_with sep r end
   end.
 
-(* apply_package_env *)
+(* How the manifest's rust-version reaches nextest: cargo_metadata's deserialize_rust_version
+   appends ".0" when the string contains exactly one dot and parses the result as a semver
+   Version; guppy's minimum_rust_version().to_string() prints all three components.  So a
+   two-component rust-version ("1.70") arrives as "1.70.0" (Cargo itself sets "1.70"). *)
+Definition count_dots (v : str) : nat := length (filter (N.eqb 46) v).
+
+Definition pad_rust_version (v : str) : str :=
+  if Nat.eqb (count_dots v) 1 then v ++ [46; 48] else v.
+
+(* apply_package_env; [p_rust_version] is the manifest's rust-version *)
 Definition package_layer (p : package) : env :=
   [ (K.CARGO_PKG_VERSION, p_version p);
     (K.CARGO_PKG_VERSION_MAJOR, p_major p);
@@ -279,7 +288,8 @@ Definition package_layer (p : package) : env :=
     (K.CARGO_PKG_LICENSE, unwrap_or_default (p_license p));
     (K.CARGO_PKG_LICENSE_FILE, unwrap_or_default (p_license_file p));
     (K.CARGO_PKG_REPOSITORY, unwrap_or_default (p_repository p));
-    (K.CARGO_PKG_RUST_VERSION, unwrap_or_default (p_rust_version p)) ].
+    (K.CARGO_PKG_RUST_VERSION,
+       match p_rust_version p with Some v => pad_rust_version v | None => [] end) ].
 
 (* -- apply_ld_dyld_env *)
 Inductive platform := Linux | MacOS | Windows.
@@ -355,6 +365,11 @@ Definition executor_layer (r : run_cfg) (a : attempt_cfg) : env :=
 Definition nextest_fixed (r : run_cfg) (s : suite_cfg) (a : attempt_cfg) : env :=
   nextest_static_layer r s ++ executor_layer r a.
 
+(* known finding F15a: the class of packages on which CARGO_PKG_RUST_VERSION differs from the
+   manifest's (and Cargo's) value *)
+Definition rust_version_two_components (p : package) : bool :=
+  match p_rust_version p with Some v => Nat.eqb (count_dots v) 1 | None => false end.
+
 (* all assignments made on the Command by TestInstance::make_command (what hook H5 observes) *)
 Definition make_command_assignments (r : run_cfg) (s : suite_cfg) (inherited : env)
   : option env :=
@@ -411,7 +426,7 @@ Definition make_command (r : run_cfg) (s : suite_cfg) (ds : option str) (rn : op
 Fixpoint env_keys (e : env) : list str :=
   match e with
   | [] => []
-  | (k, _) :: r => if mem_str k (env_keys r) then env_keys r else k :: env_keys r
+  | (k, _) :: r => let ks := env_keys r in if mem_str k ks then ks else k :: ks
   end.
 
 Definition env_final (e : env) : list (str * str) :=
